@@ -536,6 +536,7 @@ func C04(run *mon.Run) {
 	// algebraic corners: identity operands at each position, equal operands (doubling), opposite
 	// operands (cancellation), and removal whose intermediate sum equals +-the minuend
 	c04Corners(run, r, cv)
+	c04IdentityHelpers(run, r, cv)
 	// error classes
 	c04Errors(run, r)
 	run.Require(run.Counter("zero-sum") >= 10, "fewer than 10 zero-sum multisets")
@@ -864,6 +865,63 @@ func c04Corners(run *mon.Run, r *rand.Rand, cv ref.Conv) {
 			}
 		}
 	}
+}
+
+// c04IdentityHelpers: IsBLSSignatureIdentity is true for exactly one string (0xC0 followed by 47 zero
+// bytes); BLSInvalidSignature() is a 48-byte string that no key accepts and that aggregation refuses;
+// IdentityBLSPublicKey() is the canonical infinity encoding and is neutral in sums.
+func c04IdentityHelpers(run *mon.Run, r *rand.Rand, cv ref.Conv) {
+	inf := append([]byte{0xC0}, make([]byte, 47)...)
+	sk := skFromInt(randScalar(r))
+	h := crypto.NewExpandMsgXOFKMAC128("c04-helpers")
+	good, _ := sk.Sign([]byte("m"), h)
+	cands := map[string][]byte{"identity": inf, "nil": nil, "empty": {}, "47-bytes": inf[:47], "49-bytes": append(append([]byte{}, inf...), 0), "96-bytes": append(append([]byte{}, inf...), inf...),
+		"header-40": append([]byte{0x40}, make([]byte, 47)...), "header-80": append([]byte{0x80}, make([]byte, 47)...), "header-E0": append([]byte{0xE0}, make([]byte, 47)...), "header-C1": append([]byte{0xC1}, make([]byte, 47)...),
+		"all-zero": make([]byte, 48), "valid-signature": good, "invalid-signature-helper": crypto.BLSInvalidSignature()}
+	for pos := 1; pos < 48; pos++ {
+		g := append([]byte{}, inf...)
+		g[pos] = byte(1 + r.IntN(255))
+		cands[fmt.Sprintf("garbage-at-%d", pos)] = g
+	}
+	for gi, gb := range cancellingGarbage(r, 48) {
+		g := append([]byte{}, inf...)
+		for i, v := range gb {
+			g[i] |= v
+		}
+		cands[fmt.Sprintf("cancelling-garbage-%d", gi)] = g
+	}
+	for name, c := range cands {
+		run.Eval(1)
+		if got, want := crypto.IsBLSSignatureIdentity(c), name == "identity"; got != want {
+			run.Violate("C04:is-identity-signature:"+strings.SplitN(name, "-at-", 2)[0], fmt.Sprintf("IsBLSSignatureIdentity(%x) = %v (candidate %s)", c, got, name), map[string]any{"candidate": mon.Hex(c)})
+		}
+	}
+	bad := crypto.BLSInvalidSignature()
+	run.Eval(3)
+	if len(bad) != 48 || sigClass(bad) == "in-G1" || sigClass(bad) == "infinity" {
+		run.Violate("C04:invalid-signature-helper", fmt.Sprintf("BLSInvalidSignature() = %x is a decodable signature", []byte(bad)), nil)
+	}
+	for _, k := range []crypto.PublicKey{sk.PublicKey(), crypto.IdentityBLSPublicKey(), skFromInt(big.NewInt(1)).PublicKey()} {
+		if ok, err := k.Verify(bad, []byte("m"), h); ok || err != nil {
+			run.Violate("C04:invalid-signature-helper", fmt.Sprintf("Verify(BLSInvalidSignature()) = (%v, %v)", ok, err), nil)
+		}
+	}
+	bad[5] ^= 0xff // the returned slice is the caller's
+	if again := crypto.BLSInvalidSignature(); sigClass(again) == "in-G1" || !bytes.Equal(again, crypto.BLSInvalidSignature()) {
+		run.Violate("C04:invalid-signature-helper", "BLSInvalidSignature() changes after the caller modified an earlier result", nil)
+	}
+	id := crypto.IdentityBLSPublicKey()
+	wantId := ref.EncodeG2(ref.E2.Infinity(), cv)
+	pk := sk.PublicKey()
+	sum, err := crypto.AggregateBLSPublicKeys([]crypto.PublicKey{id, pk, crypto.IdentityBLSPublicKey()})
+	run.Eval(2)
+	if !bytes.Equal(id.Encode(), wantId) || !id.Equals(crypto.IdentityBLSPublicKey()) || id.Equals(pk) || pk.Equals(id) {
+		run.Violate("C04:identity-key-helper", fmt.Sprintf("IdentityBLSPublicKey() encodes to %x (canonical infinity: %x) or compares wrongly", id.Encode(), wantId), nil)
+	}
+	if err != nil || !sum.Equals(pk) || !bytes.Equal(sum.Encode(), pk.Encode()) {
+		run.Violate("C04:identity-key-helper", "the identity key is not neutral in AggregateBLSPublicKeys", nil)
+	}
+	run.Shape("identity-helpers")
 }
 
 func c04Errors(run *mon.Run, r *rand.Rand) {
